@@ -358,6 +358,7 @@ func cmdCheck(args []string) {
 	os.MkdirAll(filepath.Dir(evPath), 0o755)
 	os.WriteFile(evPath, data, 0o644)
 	fmt.Printf("property %s: %d obligations, %d discharged, %d known findings, %d violations, %.1fs\n", *prop, nObl, nDis, len(known), len(violations), time.Since(t0).Seconds())
+	os.RemoveAll(dir) // os.Exit skips the deferred removal: the VC files of a run can be several hundred MB
 	os.Exit(exit)
 }
 
